@@ -17,7 +17,9 @@ RULE = ("[options reach the loop as the runner builds them: every case places ea
         "compared with the model under the exactly converted limits (decimal_nanos); (5) two runs on the OS timer (Instant) with calls of at "
         "least 400 ms under a 1 s ceiling, judged by the bound of C04_rounds_bounded; (6) end to end on the virtual clock with an input generator "
         "that takes external time: skip_ext_time from the bench attribute, the group, --skip-ext-time (bare, =true, =false), DIVAN_SKIP_EXT_TIME, or Divan::skip_ext_time(false|true) (before or after "
-        "the limit; the builder wins), rounds read from the dumped event log, model driven by the same history. The harness logs every timestamp the loop takes; "
+        "the limit; the builder wins), rounds read from the dumped event log, model driven by the same history; (7) the time origin: fresh processes "
+        "with the REAL first-use overhead calibration (no override) under an auto-stepping virtual clock, min_time/max_time below and above the "
+        "calibration time, judged by the rule with the elapsed time measured from just before the first sample (c04_cal_sb). The harness logs every timestamp the loop takes; "
         "the log drives the extracted model; the extracted c04_sb (rounds = least k with not continue_after k, computed "
         "declaratively from the logged timestamps) is evaluated on the implementation's output. "
         "Non-trivial = agreed `ok` line with at least one round; distinct by input line.")
@@ -30,8 +32,10 @@ ASSUMPTIONS = [
     "the T raw samples of a round come back in thread order (C06's subject)",
 ]
 TRUSTED = ["tools/props/loop_common.py (case generators; its Python rendering of the loop only aims cases at boundaries)"]
-CONSTS_USED = ["max_time_cmp_is_ge", "min_time_cmp_is_lt", "min_progress_picos", "default_sample_count", "tune_threshold", "tune_factor"]
-GENERATED_OBLIGATIONS = ["C04_loop_consts : max_time_cmp_is_ge = true /\\ min_time_cmp_is_lt = true /\\ min_progress_picos = 1000"]
+CONSTS_USED = ["max_time_cmp_is_ge", "min_time_cmp_is_lt", "min_progress_picos", "default_sample_count", "tune_threshold", "tune_factor",
+               "origin_before_calib"]
+GENERATED_OBLIGATIONS = ["C04_origin_after_calibration : origin_before_calib = false (the time origin is read after the first-use "
+                         "overhead calibration)", "C04_loop_consts : max_time_cmp_is_ge = true /\\ min_time_cmp_is_lt = true /\\ min_progress_picos = 1000"]
 
 DMAX = "18446744073709551615:999999999"
 # at least 2^64 ns, with small low 64 bits of the nanosecond count (2^55 s = 5^9 * 2^64 ns): a conversion that
@@ -103,6 +107,7 @@ def streams(tier, rng):
     return [
         L.make_stream("c04-corpus", "c04", L.corpus("C04")),
         L.cli_time_stream("c04-cli-time-limits", cli),
+        L.calib_stream("c04-e2e-calibration-origin"),
         L.os_timer_stream("c04-os-timer-ceiling"),
         L.skip_ext_stream("c04-e2e-skip-ext-time", L.skip_ext_cases(rng, 70 if not big else 300)),
         L.make_stream("c04-boundaries", "c04", aimed, hist=L.histogram(aimed),
